@@ -158,6 +158,9 @@ func genVariants(r *run.Rand, s *Spec, thorough bool, known knownFn) []*Variant 
 			}
 		}
 		v.ImplSnap = v.Mode == "snap" && r.Intn(4) == 0
+		if v.Mode == "csv" && s.Cmd != "analyze" && vi%3 == 1 {
+			v.Mode = "noout" // the CSV goes to a file and nothing to standard output
+		}
 		// tuning
 		v.Workers = pickInt(r, []int{1, 2, 3, 4, 8, 16})
 		v.Batch = pickInt(r, []int{1, 2, 3, 5, 7, 16, 64, 1000})
@@ -292,7 +295,7 @@ func runVariant(c *run.Ctx, cs Case, s *Spec, a *Agg, v *Variant, dir string, re
 		return nil, false
 	}
 	csvPath := ""
-	if v.Mode == "snap" && s.Cmd != "analyze" {
+	if (v.Mode == "snap" || v.Mode == "noout") && s.Cmd != "analyze" {
 		csvPath = filepath.Join(vdir, "out.csv")
 	}
 	args := s.argv(v, csvPath, paths)
@@ -374,6 +377,18 @@ func runVariant(c *run.Ctx, cs Case, s *Spec, a *Agg, v *Variant, dir string, re
 	}
 	if v.Mode == "csv" {
 		o.csv = p.stdout
+	} else if v.Mode == "noout" {
+		// --noout: no aggregation on standard output; the CSV export and the exit status are what they always are
+		if len(bytes.TrimSpace(p.stdout)) != 0 {
+			say(&finding{"noout-output", "--noout was given but standard output holds " + run.Q(tail(string(p.stdout), 300))})
+		}
+		b, err := os.ReadFile(csvPath)
+		if err != nil {
+			say(&finding{"csv-file-missing", "--noout -o FILE was given but no file was written: " + err.Error()})
+			return o, false
+		}
+		o.csv = b
+		c.Count("noout_runs", 1)
 	} else {
 		if s.All {
 			// histo --all: screen, summary, status line, then "Full Table:", every row (no -n limit), the summary again
